@@ -200,8 +200,12 @@ func ruleQuantizeIntermediateContext(w *World, r *RuleResult) {
 		}
 		base := basePtr(ctx)
 		_, isAlloc := base.(*ssa.Alloc)
-		if fc, isCall := base.(*ssa.Call); isCall && w.calleeName(fc) == "(*Context).WithPrecision" {
-			isAlloc = true // WithPrecision returns a fresh copy
+		minFromCtor := false
+		if ci := w.ctxCtor(base); ci != nil {
+			isAlloc = true // a constructor returns a fresh copy
+			if v, ok := ci.Consts["MinExponent"]; ok && v == fmt.Sprint(minE) {
+				minFromCtor = true
+			}
 		}
 		if !isAlloc {
 			r.bad(key, w.instrPos(c), "the intermediate value is rounded under the caller's own context ("+w.exprOf(f, ctx).String()+"): its exponent limits apply to a value that is not the result")
@@ -219,7 +223,7 @@ func ruleQuantizeIntermediateContext(w *World, r *RuleResult) {
 			k, isK := st.Val.(*ssa.Const)
 			return isK && ci(k) == minE
 		})
-		if stored {
+		if stored || minFromCtor {
 			r.ok(key, w.instrPos(c), "private context copy with MinExponent = package limit on every path", true)
 		} else {
 			r.bad(key, w.instrPos(c), "the private context keeps the caller's MinExponent: with MinExponent = 0 a value whose digits all lie just below the quantum (0.7 → exponent 0) is treated as subnormal, rounded at Etiny = 1 and comes back ten times too large, with Underflow")
@@ -425,12 +429,21 @@ func ruleTrapFilterUsesCallerTraps(w *World, r *RuleResult) {
 			r.ok(key, w.instrPos(c), "receiver is the method's own context", false)
 			continue
 		}
-		cp, isCall := base.(*ssa.Call)
-		if !isCall || w.calleeName(cp) != "(*Context).WithPrecision" || basePtr(cp.Common().Args[0]) != ssa.Value(f.Params[0]) {
+		ci := w.ctxCtor(base)
+		okSrc := false
+		if ci != nil {
+			if pr, isP := ci.fromParam(); isP && pr == f.Params[0] {
+				okSrc = true
+			}
+		}
+		if !okSrc {
 			r.bad(key, w.instrPos(c), "flags are turned into an error against the traps of "+w.exprOf(f, c.Common().Args[0]).String()+", which is not the caller's context or a copy of it")
 			continue
 		}
 		var stores []string
+		if _, edited := ci.Consts["Traps"]; edited {
+			stores = append(stores, w.instrPos(ci.Call)+" (inside the constructor)")
+		}
 		for _, st := range storesIn(f) {
 			if fa, ok := st.Addr.(*ssa.FieldAddr); ok && basePtr(fa.X) == base && w.exprOf(f, st.Addr).Name == "Traps" {
 				stores = append(stores, w.instrPos(st))
